@@ -15,12 +15,17 @@ From PyccoloV Require Import gen.PyAst model.Tree model.Erase proofs.EraseSound.
 
 Theorem C10_guard_branches_agree : forall sc test b o l,
   is_guard_test test = true ->
-  (post kIf sc [[test]; b; o] = Some l -> l = b /\ trees_eqb b (map norm o) = true) /\
+  (post kIf sc [[test]; b; o] = Some l ->
+     l = b /\ (trees_eqb b (map norm o) = true
+              \/ (o = [] /\ forallb (tree_eqb (T kPass [] [])) b = true))) /\     (* or: nothing but `pass` is guarded and there is no
+                                                                                  other branch (a loop body of hoisted declarations only) *)
   (forall b1 o1, post kIfExp sc [[test]; [b1]; [o1]] = Some l -> l = [b1] /\ tree_eqb b1 (norm o1) = true).
 Proof.
   intros sc test b o l Hg. split.
   - unfold post. change (N.eqb kIf kCall) with false. change (N.eqb kIf kIfExp) with false. change (N.eqb kIf kIf) with true.
-    cbn iota. rewrite Hg. destruct (trees_eqb b (map norm o)) eqn:E; intros H; inversion H; auto.
+    cbn iota. rewrite Hg. destruct (trees_eqb b (map norm o)) eqn:E; intros H; [inversion H; auto|].
+    destruct o as [|o0 o']; [|discriminate]. destruct (forallb (tree_eqb (T kPass [] [])) b) eqn:Ep; [|discriminate].
+    inversion H; auto.
   - intros b1 o1. unfold post. change (N.eqb kIfExp kCall) with false. change (N.eqb kIfExp kIfExp) with true.
     cbn iota. rewrite Hg. destruct (tree_eqb b1 (norm o1)) eqn:E; intros H; inversion H; auto.
 Qed.
